@@ -26,7 +26,7 @@ def main():
         extra = json.load(open(os.path.join(src, "extra.json")))
     summary = []
     for d in sorted(os.listdir(src)):
-        if not d.startswith("out-C"):
+        if not d.startswith("out-C") or not os.path.isdir(os.path.join(src, d)):
             continue
         pid = d[4:]
         if only and pid not in only:
